@@ -450,6 +450,14 @@ class LibMap:
         f = "vf_set_%s_" % tag
         if name in ("size", "empty", "clear"):
             return "%s%s(%s)" % (f, name, p)
+        if name == "insert" and len(args) == 1 and skip(args[0]).get("kind") == "CXXStdInitializerListExpr":
+            # s.insert({e0, e1, ...}): one insert per item of the braced list, in order
+            lst = skip(args[0])
+            while lst.get("kind") != "InitListExpr" and lst.get("inner"):
+                lst = lst["inner"][0]
+            if lst.get("kind") != "InitListExpr" or not lst.get("inner"):
+                raise Unsupported("set insert of an initializer list that is not a non-empty braced list")
+            return "(%s)" % ", ".join("%sinsert(%s, %s)" % (f, p, em.E(c)) for c in lst["inner"])
         if name in ("find", "count", "contains", "erase", "insert", "emplace") and len(args) == 1:
             nm = "insert" if name == "emplace" else name
             return "%s%s(%s, %s)" % (f, nm, p, em.E(args[0]))
@@ -498,6 +506,14 @@ class LibMap:
                                  "  for (size_t i = 0; i < n; i++)\n    %s\n  { out[i] = %s; }\n  return out + n;\n}\n"
                                  % (m, m, cts[-1], hn, ", ".join(ps), m, call))
                 return "%s(%s)" % (hn, ", ".join(em.E(a) for a in args[:-1]))
+        if name == "make_exception_ptr" and len(args) == 1:
+            # std::make_exception_ptr(E(...)): only the kind of the exception survives (payload dropped, DESIGN 3.2)
+            t = peel(em.tm, em.ptype(args[0]))
+            if t.kind != "named":
+                return None
+            cn = "VF_EXC_" + ident(t.last)
+            em.exc_kinds.add(cn)
+            return "((vf_excptr)%s)" % cn
         if name == "clamp" and len(args) == 3:
             ct = em.ctype(n)
             self.minmax.add(("clamp", ct))
@@ -541,6 +557,14 @@ class LibMap:
             ct = self.mapped(em, n)
             if ct and ct.startswith("struct vf_pair_"):
                 return "((%s){%s, %s})" % (ct, em.E(args[0]), em.E(args[1]))
+        if name == "find" and len(args) == 2:
+            # range form (boost::range::find / std::ranges::find) over a sequence container: find(begin, end, v)
+            ct = self.mapped(em, args[0])
+            if ct and ct.startswith("struct vf_seq_") and not ct.endswith("*"):
+                tag = ct[len("struct vf_seq_"):]
+                p = em.addr_of(args[0])
+                return "vf_seq_%s_find_in(vf_seq_%s_begin(%s), vf_seq_%s_end(%s), %s)" % (tag, tag, p, tag, p,
+                                                                                        em.E(args[1]))
         if name in em.ALGO_BODIES and len(args) == 3:
             r = em.algo_call(n, name, args)
             if r is not None:
@@ -587,6 +611,12 @@ class LibMap:
                          "long double": "fabsl"}.get(act, None)
                 if cname is None:
                     return None
+            if name in ("isfinite", "isnan", "isinf") and len(args) == 1:
+                # classification macros of <math.h> expand to __builtin_* that goto-instrument --dfcc cannot
+                # instrument: use CBMC's primitives (same IEEE semantics)
+                suf = {"double": "d", "float": "f", "long double": "ld"}.get(self.mapped(em, args[0]))
+                if suf is not None:
+                    return "__CPROVER_%s%s(%s)" % (name, suf, a[0])
             return "%s(%s)" % (cname, ", ".join(a))
         if name in CLIB:
             return "%s(%s)" % (name, ", ".join(em.E(x) for x in args))
@@ -618,6 +648,13 @@ class LibMap:
             if core.get("kind") == "StringLiteral":
                 return "VF_STRLIT(%s)" % core["value"]
             return self.str_fn(em, "vf_str_from_cstr", "vf_str", ["char*"], [em.E(a0)])
+        if ct == "vf_excptr":
+            # std::exception_ptr(): null; exception_ptr(nullptr): null; copy: the same kind
+            if not args or skip(args[0]).get("kind") in ("CXXNullPtrLiteralExpr", "GNUNullExpr"):
+                return "((vf_excptr)0)"
+            if self.mapped(em, args[0]) == ct:
+                return em.E(args[0])
+            return None
         if is_scalar(ct):
             if not args:
                 return "((%s)0)" % ct
